@@ -43,6 +43,10 @@ def _size_names(fn):
     return out
 
 
+from .. import paths as _paths
+KEEP = ('size', 'offset', 'data_block_size', 'self', 'rf', 'mint', 'itemcount', 'ntimes')
+
+
 def check_count_arith(ctx, rp, q, count_names):
     """R-WHOLEBLOCKS for the assignments to count_names in function q"""
     m = ctx.src.mod(rp)
@@ -52,7 +56,8 @@ def check_count_arith(ctx, rp, q, count_names):
     for st in iter_stmts(fn.body):
         if not (isinstance(st, ast.Assign) and isinstance(st.targets[0], ast.Name) and st.targets[0].id in count_names):
             continue
-        v = st.value
+        # the quotient with temporaries substituted: a count computed in several statements is the same arithmetic
+        v = _paths.subst(st.value, _paths.dominating_env(fn, st, keep=KEEP))
         t = norm(v)
         if not any(isinstance(x, ast.BinOp) and isinstance(x.op, (ast.Div, ast.FloorDiv)) for x in ast.walk(v)):
             continue
@@ -143,7 +148,7 @@ def check_blocksize(ctx, fmt, cls):
     # the divisor really is data_block_size, the dividend size - offset
     cnt = [st for st in iter_stmts(fn.body) if isinstance(st, ast.Assign) and norm(st.targets[0]) == 'ntimes' and any(isinstance(x, ast.BinOp) for x in ast.walk(st.value))]
     if cnt:
-        t = norm(cnt[0].value)
+        t = norm(_paths.subst(cnt[0].value, _paths.dominating_env(fn, cnt[0], keep=KEEP)))
         if 'data_block_size' in t and re.search(r'size - offset', t) and re.search(r'/ 4\.?\b', t):
             ctx.ok('R-BLOCKSIZE', fmt + ':quotient', where, t)
         else:
@@ -198,8 +203,10 @@ def run(ctx):
         ctx.violation(Finding('R-MAPCOUNT', 'geoschemfiles/_bpch.py', 'bpch1.__init__', api.stmt_of(mm[0]), 'the time blocks are mapped with shape %s, not (itemcount,): a partial block at the end of a cut file is mapped '
                               'too (or the mapping fails for every cut file)' % (norm(shp) if shp is not None else 'taken from the file size')))
     ic = [st for st in iter_stmts(bi.body) if isinstance(st, ast.Assign) and norm(st.targets[0]) == 'itemcount' and 'getsize' in norm(st.value)]
-    if ic and '_general_header_type.itemsize' in norm(ic[0].value) and 'time_type.itemsize' in norm(ic[0].value):
-        ctx.ok('R-MAPCOUNT', 'bpch:quotient', wb, norm(ic[0].value)[:80])
+    ic = [st for st in iter_stmts(bi.body) if isinstance(st, ast.Assign) and norm(st.targets[0]) == 'itemcount']
+    icv = norm(_paths.subst(ic[0].value, _paths.dominating_env(bi, ic[0], keep=('time_type', '_general_header_type', 'self')))) if ic else ''
+    if ic and 'getsize' in icv and '_general_header_type.itemsize' in icv and 'time_type.itemsize' in icv:
+        ctx.ok('R-MAPCOUNT', 'bpch:quotient', wb, icv[:80])
     else:
         ctx.violation(Finding('R-MAPCOUNT', 'geoschemfiles/_bpch.py', 'bpch1.__init__', ic[0] if ic else bi.body[-1], 'itemcount is not (file size - general header) // size of one time block'), oid='bpch:quotient')
     ctx.assumptions += ['numpy.memmap raises when offset/shape exceed the file and when the remaining size is not a multiple of the item size (numpy documentation)',
